@@ -209,7 +209,7 @@ def c13_3(R):
                             R.fail([fname, "acceptor-lost-on", var], "on MatchSynWithAccept::%s the acceptor is dropped instead of being stored back: an accept() call is lost" % var, where=blk.term.where(), instance="acceptor-put-back")
 
 
-@rule("C13.4", ["C13", "C12"], ["E2", "E4"], "the backlog is re-examined on every dispatcher iteration; slot scans are exhaustive",
+@rule("C13.4", ["C13", "C12", "C08"], ["E2", "E4"], "the backlog is re-examined on every dispatcher iteration; slot scans are exhaustive",
       "Dispatcher::run_once calls cleanup_accept_queue before the select!, i.e. the call dominates all three arms (new acceptor stored, on_control, on_recv): a slot freed by a Shutdown or a new "
       "acceptor is matched with parked SYNs whatever event ended the previous iteration. ConnectingPerAddr::insert / pop / pop_by_token scan `self.slots.iter_mut()` directly, with no take/skip/filter "
       "adapter (a scan bounded by `len` misses entries after a hole and leaks their slot).")
